@@ -39,7 +39,7 @@ STATEMENTS = [
 ]
 URI = {'tal': TAL, 'metal': METAL, 'i18n': I18N}
 LEAK = re.compile(r'(\btal:|\bmetal:|\bi18n:|\bmeta:|xml\.zope\.org/namespaces|data-tal-|data-metal-|data-i18n-'
-                  r'|\bqq:|xmlns:qq)')
+                  r'|\bqq:|xmlns:qq|\bTq:|xmlns:Tq)')
 
 
 def spellings(ns, name, value, content):
@@ -51,6 +51,9 @@ def spellings(ns, name, value, content):
     innerq = content % {'p': 'qq:'} if '%(p)s' in content else content
     out['renamed-on-self'] = ('<z><e%s xmlns:qq="%s" qq:%s="%s">%s</e></z>'
                               % (title, URI[ns], name, value, innerq), {})
+    inneru = content % {'p': 'Tq:'} if '%(p)s' in content else content
+    out['renamed-upper'] = ('<z><e%s xmlns:Tq="%s" Tq:%s="%s">%s</e></z>'
+                            % (title, URI[ns], name, value, inneru), {})
     out['renamed-on-ancestor'] = ('<z xmlns:qq="%s"><e%s qq:%s="%s">%s</e></z>'
                                   % (URI[ns], title, name, value, innerq), {})
     innerd = content % {'p': 'data-%s-' % ns} if '%(p)s' in content else content
@@ -121,7 +124,7 @@ def unit(spec):
     for sid, ns, name, value, content in STATEMENTS:
         ref = compiled['%s|default' % sid]
         refd = compiled['%s|default+data-option' % sid]
-        for sp in ('renamed-on-self', 'renamed-on-ancestor', 'data-attribute'):
+        for sp in ('renamed-on-self', 'renamed-upper', 'renamed-on-ancestor', 'data-attribute'):
             got = compiled['%s|%s' % (sid, sp)]
             base = refd if sp == 'data-attribute' else ref
             nm = 'spelling[%s,%s]' % (sid, sp)
@@ -157,7 +160,7 @@ def unit(spec):
                 o['witness'] = {'inputs': {'template': text, 'options': index['%s|%s' % (sid, sp)][3]},
                                 'detail': {'error': got.get('error'), 'message': got.get('message')}}
             obls.append(o)
-        for sp in ('default', 'renamed-on-self', 'renamed-on-ancestor', 'data-attribute') + EXTRA:
+        for sp in ('default', 'renamed-on-self', 'renamed-upper', 'renamed-on-ancestor', 'data-attribute') + EXTRA:
             if '%s|%s' % (sid, sp) not in compiled:
                 continue
             got = compiled['%s|%s' % (sid, sp)]
